@@ -81,6 +81,7 @@ MUTANTS = {
         ("patch:own-c18-reserved-names-not-ignored",),
         ("patch:own-c18-options-ignored-with-vcf-input",),
         ("patch:own-c18-fractional-int-truncated",),
+        ("patch:own-c18-profile-fields-with-user-structure",),
         ("values-kept-as-strings", "aldy/profile.py", "                            self.__dict__[n] = typ(v)", "                            self.__dict__[n] = v"),
         ("precedence-reversed", "aldy/profile.py", '        options = dict(prof.get("options") or {}, **params)', '        options = dict(params, **(prof.get("options") or {}))'),
         ("options-dropped-on-write", "aldy/profile.py", '                d["options"][k] = v', "                pass"),
